@@ -49,8 +49,30 @@ Theorem C02_entry_chain_bounded : forall c k kid ss s,
   end.
 Proof. exact T_C02_entry_chain. Qed.
 
+(* extend is its up-front reserve (exempted by the property: it may finish a resize in flight)
+   followed by one insert per item ... *)
+Theorem C02_extend_is_reserve_then_loop : forall c items hint,
+  map_extend c items hint =
+  (s <- get ;;
+   let reserve := if rt_len (s_rt s) =? 0 then hint else hint / 2 + hint mod 2 in
+   on_unwind (rt_reserve c false reserve) (iterM (fun x => drop_key (snd (fst x)) ;;; drop_val (snd x)) items) ;;;
+   extend_loop c items).
+Proof. exact extend_is_reserve_then_loop. Qed.
+
+(* ... and the insertion loop over n items costs at most n inserts: at most n (1 + R) hash
+   computations, n R moves, n allocations, however large the map is *)
+Theorem C02_extend_loop_bounded : forall c items s,
+  match extend_loop c items s with
+  | Ok _ s' | Unwind _ s' =>
+      log_within (dmul (N.of_nat (length items)) (D (1 + cR c) (cR c) 1 2)) s s'
+  | Fault _ => True
+  end.
+Proof. exact T_C02_extend_loop. Qed.
+
 Print Assumptions C02_insert_bounded.
 Print Assumptions C02_entry_step_bounded.
 Print Assumptions C02_entry_chain_bounded.
 Print Assumptions C02_lookup_constant.
 Print Assumptions C02_removal_constant.
+Print Assumptions C02_extend_is_reserve_then_loop.
+Print Assumptions C02_extend_loop_bounded.
